@@ -71,8 +71,13 @@ def gen_pat():
     labs, anyc = group_of("eMATCH_ANY_ANCESTOR")
     facts["any_cases_shared"] = sorted(labs)
     facts["any_start_excludes_attribute"] = bool(re.search(r"if\s*\(\s*nodeType\s*!=\s*XalanNode::ATTRIBUTE_NODE\s*\)", anyc))
-    facts["any_document_excluded_for"] = sorted(set(re.findall(
-        r"nodeType\s*==\s*XalanNode::DOCUMENT_NODE\s*&&\s*stepType\s*==\s*XPathExpression::(e\w+)", anyc)))
+    # the root exclusion of the child-axis any-ancestor step:  <types> && stepType == <op> ? eMatchScoreNone : tester
+    # (<types> is one 'nodeType == T' or a parenthesised '||' of them; anything else in the condition fails closed)
+    mx = re.search(r"score\s*=\s*([^;?]*?)&&\s*stepType\s*==\s*XPathExpression::(e\w+)\s*\?\s*eMatchScoreNone\s*:", anyc)
+    facts["any_document_excluded_for"] = [mx.group(2)] if mx else []
+    facts["any_excluded_root_types"] = sorted(re.findall(r"nodeType\s*==\s*XalanNode::(\w+)", mx.group(1))) if mx else []
+    if mx and re.sub(r"nodeType\s*==\s*XalanNode::\w+|\|\||[()\s]", "", mx.group(1)) != "":
+        raise sf.AnchorError("stepPattern: the root exclusion of eMATCH_ANY_ANCESTOR is not a disjunction of node types: " + mx.group(1))
     facts["any_loop_predicates_inside"] = bool(re.search(r"for\s*\(\s*;\s*;\s*\).*doStepPredicate.*getParentOfNode", anyc, re.S)) and \
         bool(re.search(r"fDoPredicates\s*=\s*false", anyc))
     # root
@@ -80,6 +85,8 @@ def gen_pat():
     # FROM_ROOT only accepts the root itself (no look at the neighbouring step, no walk towards the root)
     facts["root_is_exact"] = ("prevStepType" not in root) and ("getParentOfNode" not in root) and \
         bool(re.search(r"DOCUMENT_NODE", root))
+    # the node types eFROM_ROOT accepts as a root (a document, the root of a result tree fragment)
+    facts["root_accepted_types"] = sorted(re.findall(r"nodeType\s*==\s*XalanNode::(\w+)", root))
     # an any-ancestor step whose left neighbour is exact re-enters stepPattern on the steps to its left
     # (from firstPos, stopping at this step) for every ancestor it would accept
     m = re.search(r"fCheckLeft\s*=\s*([^;]*);", anyc[anyc.index("if (startOpPos != firstPos)"):] if "if (startOpPos != firstPos)" in anyc else "")
@@ -127,7 +134,8 @@ def gen_pat():
     out += "From Coq Require Import List String.\nImport ListNotations.\nOpen Scope string_scope.\n\n"
     out += "(* case labels of the switch in XPath::stepPattern, in source order *)\n"
     out += "Definition step_pattern_cases : list string := %s.\n" % cs(order)
-    for k in ("imm_excluded_types", "any_cases_shared", "any_document_excluded_for", "left_check_skipped_after",
+    for k in ("imm_excluded_types", "any_cases_shared", "any_document_excluded_for", "any_excluded_root_types",
+              "root_accepted_types", "left_check_skipped_after",
               "name_test_attribute_axes", "step_ops", "head_ops"):
         out += "Definition %s : list string := %s.\n" % (k, cs(facts[k]))
     out += "Definition attr_tester_axis : string := \"%s\".\n" % facts["attr_tester_axis"]
